@@ -173,12 +173,13 @@ Print Assumptions C04_placeholder_alias_refuted.
 (* ---- response direction ---- *)
 
 (* Before the header_downstream rules run: every header of the hop-by-hop table and every header
-   named in the (first) Connection value is gone, every other backend header is unchanged. *)
-Theorem C04_response_headers_spec_partial :
+   named in ANY Connection line of the backend response (all values, all comma-separated tokens) is
+   gone, every other backend header is unchanged. *)
+Theorem C04_response_headers_spec :
   forall h,
   (forall k, In k gen_hop_headers -> hlookup (resp_strip h) k = None) /\
-  (forall tok, In tok (first_conn_tokens h) -> hlookup (resp_strip h) (canon_key tok) = None) /\
-  (forall k, ~ In k gen_hop_headers -> (forall tok, In tok (first_conn_tokens h) -> canon_key tok <> k) ->
+  (forall tok, In tok (all_conn_tokens h) -> hlookup (resp_strip h) (canon_key tok) = None) /\
+  (forall k, ~ In k gen_hop_headers -> (forall tok, In tok (all_conn_tokens h) -> canon_key tok <> k) ->
              hlookup (resp_strip h) k = hlookup h k).
 Proof.
   intros h. split; [|split].
@@ -186,12 +187,20 @@ Proof.
   - intros tok. exact (resp_conn_listed_removed h tok).
   - intros k. exact (resp_e2e_preserved h k).
 Qed.
-Print Assumptions C04_response_headers_spec_partial.
+Print Assumptions C04_response_headers_spec.
 
-Theorem C04_response_connection_listed_refuted :
-  exists h tok, In tok (all_conn_tokens h) /\ hlookup (resp_strip h) (canon_key tok) = Some [bs "v1"%string].
-Proof. exact response_second_connection_line_refuted. Qed.
-Print Assumptions C04_response_connection_listed_refuted.
+(* The same in the terms of the executable spec: no header that is hop-by-hop for this response
+   (RFC list, or named in any of its Connection lines) reaches the client side. *)
+Theorem C04_response_hop_headers_removed_spec :
+  forall h k, is_hop_for h k = true -> hlookup (resp_strip h) k = None.
+Proof. exact resp_is_hop_for_removed. Qed.
+Print Assumptions C04_response_hop_headers_removed_spec.
+
+(* the witness of the former finding F-C04-3: a response header named in a SECOND Connection line is removed *)
+Example C04_response_second_connection_line_nonvacuous :
+  In (bs "X-Secret"%string) (all_conn_tokens wit_h2) /\ hlookup wit_h2 (bs "X-Secret"%string) = Some [bs "v1"%string] /\
+  hlookup (resp_strip wit_h2) (bs "X-Secret"%string) = None.
+Proof. exact response_second_connection_line_removed. Qed.
 
 (* Status relayed unchanged; trailers: every trailer the backend sent (announced or not) is handed
    to the client side with its values, and nothing else is. *)
